@@ -705,8 +705,8 @@ def oracle_surface(case):
     off = np.delete(shifts, ci, axis=1)
     require(np.abs(off).max() == 0.0, lambda: '%s: a shift has components in the plane: %r' % (what, shifts.tolist()))
     sv = shifts[:, ci]
-    require(np.all(sv >= -1e-9 * geo.L) and np.all(sv <= rw + 1e-9 * geo.L) and np.all(np.diff(sv) >= 0),
-            lambda: '%s: shifts not sorted within [0, rcellwidth]: %r' % (what, sv.tolist()))
+    require(np.all(sv >= -1e-9 * geo.L) and np.all(sv <= rw + 1e-9 * geo.L),
+            lambda: '%s: shifts outside [0, rcellwidth = %.9g]: %r' % (what, rw, sv.tolist()))
     tol_l = 1e-6 * max(1.0, geo.L)
     if not geo.ambiguous:
         k = geo.z[ci] // geo.gq
